@@ -18,7 +18,7 @@ theorem evalNodes_append (f : Env V → Node → Option (Env V)) : ∀ (a b : Li
 theorem bindOuts_get_other {x : Name} : ∀ {xs : List Name} {vs : List V} {ρ ρ' : Env V},
     bindOuts ρ xs vs = some ρ' → xs.contains x = false → ρ' x = ρ x
   | [], [], _, _, h, _ => by simp only [bindOuts, Option.some.injEq] at h; rw [h]
-  | [], _ :: _, _, _, h, _ => by simp [bindOuts] at h
+  | [], _ :: _, _, _, h, _ => by simp only [bindOuts, Option.some.injEq] at h; rw [h]
   | _ :: _, [], _, _, h, _ => by simp [bindOuts] at h
   | y :: ys, w :: ws, ρ, ρ', h, hx => by
     simp only [List.contains_cons, Bool.or_eq_false_iff] at hx
@@ -111,6 +111,42 @@ theorem find_append_single {o : Name} {c : String} {inits : List (Name × String
     cases p.1 == x
     · exact ih
     · rfl
+
+/-! ### operator laws (the part of the ONNX specification the partial evaluators rely on) and
+soundness of the pass's static facts -/
+
+/-- Denotation of a symbolic dimension under a valuation of the symbols. -/
+def Dim.denote (σ : String → Int) : Dim → Option Int
+  | .known n => some n
+  | .sym s => some (σ s)
+  | .unk => none
+
+/-- The facts of the operator specification used by the evaluators.  `hasDtype`/`hasShape`/`isInts`
+are what a type annotation, a shape annotation and "is this 1-D int64 tensor" *mean* for runtime
+values; they are parameters, like the operators themselves. -/
+structure OpLaws (sem : Sem V) where
+  hasDtype : V → Nat → Prop
+  hasShape : V → List Int → Prop
+  isInts : V → List Int → Prop
+  identity : ∀ attrs v, sem.op "Identity" "" attrs [some v] = some [v]
+  cast_same : ∀ attrs v (dt : Nat), hasDtype v dt → (attrs.find? (·.1 == "to")).map (·.2) = some (Attr.int dt) →
+    sem.op "Cast" "" attrs [some v] = some [v]
+  castlike_is_cast : ∀ v w (dt : Nat), hasDtype w dt →
+    sem.op "CastLike" "" [] [some v, some w] = sem.op "Cast" "" [("to", Attr.int dt)] [some v]
+  reshape_same : ∀ attrs v t dims, hasShape v dims → isInts t dims → sem.op "Reshape" "" attrs [some v, some t] = some [v]
+  expand_same : ∀ attrs v t dims, hasShape v dims → isInts t dims → sem.op "Expand" "" attrs [some v, some t] = some [v]
+  concat_single : ∀ attrs v, sem.op "Concat" "" attrs [some v] = some [v]
+  /-- inference-mode Dropout returns its input first, whatever the ratio -/
+  dropout_inference : ∀ attrs v rest vs, (rest = [] ∨ (∃ r, rest = [r]) ∨ (∃ r, rest = [r, none])) →
+    sem.op "Dropout" "" attrs (some v :: rest) = some vs → vs.head? = some v
+  tensor_ints : ∀ (c : CInfo) l, c.dtype = DT_INT64 → c.shape.length = 1 → c.ints = some l → isInts (sem.tensor c.tok) l
+
+/-- The state's annotations are truthful for the environment (A-shape) under the valuation `σ`. -/
+structure InfoSound {sem : Sem V} (L : OpLaws sem) (σ : String → Int) (st : St) (ρ : Env V) : Prop where
+  dtype : ∀ x v dt, ρ x = some v → (st.getInfo x).dtype = some dt → L.hasDtype v dt
+  shape : ∀ x v s dims, ρ x = some v → (st.getInfo x).shape = some s → s.mapM (Dim.denote σ) = some dims → L.hasShape v dims
+  const : ∀ x c, st.constOf x = some c → ρ x = some (sem.tensor c.tok)
+  symShape : ∀ x v s dims, ρ x = some v → st.getSym (some x) = some (.shape s) → s.mapM (Dim.denote σ) = some dims → L.isInts v dims
 
 /-- Pointwise relation between two lists of equal length (core has no `List.Forall₂`). -/
 inductive Forall2 {α β : Type} (R : α → β → Prop) : List α → List β → Prop
